@@ -101,3 +101,63 @@ pub enum KError { IoctlError(IoError), IOError(IoError) }
 pub type KResult<T> = core::result::Result<T, KError>;
 #[verifier::external_body]
 pub fn last_os_error() -> IoError { unimplemented!() }
+
+// ---------- handler.rs: memory-table updates (ADD_MEM_REG / REM_MEM_REG). vm-memory is modelled by its documented effect on a
+// ghost view of the region table (assumed: A-VMM); the backend is told through update_memory.
+pub struct RegionDesc { pub gpa: u64, pub size: u64, pub file: int, pub off: u64 }
+pub struct FileStub { pub id: Ghost<int> }
+pub struct MmapRegionStub { pub size: u64, pub file: int, pub off: u64 }
+pub struct GuestRegionStub { pub d: RegionDesc }
+pub struct GuestAddress(pub u64);
+#[derive(Clone, Copy)]
+pub struct RegionMsg { pub guest_phys_addr: u64, pub memory_size: u64, pub user_addr: u64, pub mmap_offset: u64 }
+impl RegionMsg {
+    // VhostUserMemoryRegion::mmap_region (message.rs): maps (file, mmap_offset, memory_size) — proved-by: reading; assumed: A-VMM
+    #[verifier::external_body]
+    pub fn mmap_region(&self, file: FileStub) -> (r: VhostUserResult<MmapRegionStub>)
+        ensures r is Ok ==> r->Ok_0 == (MmapRegionStub { size: self.memory_size, file: file.id@, off: self.mmap_offset })
+    { unimplemented!() }
+}
+// R6 target of GuestRegionMmap::new(mmap, GuestAddress(gpa)).ok_or(..)
+#[verifier::external_body]
+pub fn guest_region_new(m: MmapRegionStub, a: GuestAddress) -> (r: VhostUserResult<GuestRegionStub>)
+    ensures r is Ok ==> r->Ok_0.d == (RegionDesc { gpa: a.0, size: m.size, file: m.file, off: m.off })
+{ unimplemented!() }
+pub struct MemSnapshot { pub regions: Seq<RegionDesc> }
+pub struct AtomicMemStub { pub view: Ghost<Seq<RegionDesc>> }
+impl AtomicMemStub {
+    #[verifier::external_body]
+    pub fn memory(&self) -> (r: MemSnapshot) ensures r.regions == self.view@ { unimplemented!() }
+    // R8 target of `self.atomic_mem.lock().unwrap().replace(mem)`
+    #[verifier::external_body]
+    pub fn replace_with(&mut self, m: MemSnapshot) ensures final(self).view@ == m.regions { unimplemented!() }
+    #[verifier::external_body]
+    pub fn clone_handle(&self) -> (r: AtomicMemHandle) ensures r.view == self.view@ { unimplemented!() }
+}
+pub struct AtomicMemHandle { pub view: Seq<RegionDesc> }
+impl MemSnapshot {
+    // GuestMemoryMmap::insert_region / remove_region (assumed: A-VMM): a NEW collection; the original is untouched
+    #[verifier::external_body]
+    pub fn insert_region(&self, g: GuestRegionStub) -> (r: VhostUserResult<MemSnapshot>)
+        ensures r is Ok ==> r->Ok_0.regions == self.regions.push(g.d)
+    { unimplemented!() }
+    #[verifier::external_body]
+    pub fn remove_region(&self, a: GuestAddress, size: u64) -> (r: VhostUserResult<(MemSnapshot, GuestRegionStub)>)
+        ensures r is Ok ==> (exists|i: int| 0 <= i < self.regions.len() && self.regions[i].gpa == a.0 && self.regions[i].size == size
+                              && r->Ok_0.0.regions == self.regions.remove(i) && r->Ok_0.1.d == self.regions[i]),
+            r is Err <== !(exists|i: int| 0 <= i < self.regions.len() && self.regions[i].gpa == a.0 && self.regions[i].size == size)
+    { unimplemented!() }
+}
+pub struct BackendStub2 { pub updates: Ghost<Seq<Seq<RegionDesc>>> }
+impl BackendStub2 {
+    #[verifier::external_body]
+    pub fn update_memory(&mut self, m: AtomicMemHandle) -> (r: VhostUserResult<()>)
+        ensures final(self).updates@ == old(self).updates@.push(m.view)
+    { unimplemented!() }
+}
+pub struct MemHandler { pub backend: BackendStub2, pub atomic_mem: AtomicMemStub, pub mappings: Vec<AddrMapping> }
+// R6 target of `self.mappings.retain(|mapping| mapping.gpa_base != gpa)`
+#[verifier::external_body]
+pub fn retain_not_gpa(v: &mut Vec<AddrMapping>, gpa: u64)
+    ensures final(v)@ == old(v)@.filter(|m: AddrMapping| m.gpa_base != gpa)
+{ unimplemented!() }
